@@ -72,8 +72,14 @@ func singleDefs(fn *FuncInfo) map[*types.Var]ast.Expr {
 				note(id, nil)
 			}
 		case *ast.RangeStmt:
-			for _, e := range []ast.Expr{x.Key, x.Value} {
-				if id, ok := e.(*ast.Ident); ok {
+			if id, ok := x.Key.(*ast.Ident); ok {
+				note(id, nil)
+			}
+			if id, ok := x.Value.(*ast.Ident); ok {
+				// the element is the ranged expression at the key (read at the start of the iteration)
+				if k, ok := x.Key.(*ast.Ident); ok && k.Name != "_" {
+					note(id, &ast.IndexExpr{X: x.X, Index: k})
+				} else {
 					note(id, nil)
 				}
 			}
@@ -89,6 +95,15 @@ func singleDefs(fn *FuncInfo) map[*types.Var]ast.Expr {
 	})
 	for v, n := range count {
 		if n != 1 || defs[v] == nil {
+			delete(defs, v)
+			continue
+		}
+		if call, ok := ast.Unparen(defs[v]).(*ast.CallExpr); ok {
+			if id, ok := call.Fun.(*ast.Ident); ok && (id.Name == "make" || id.Name == "new") {
+				delete(defs, v) // a fresh object keeps its own name
+			}
+		}
+		if _, ok := ast.Unparen(defs[v]).(*ast.CompositeLit); ok {
 			delete(defs, v)
 		}
 	}
@@ -249,12 +264,21 @@ func (e *normEnv) aff(x ast.Expr) (map[string]int, int, bool) {
 // normFacts collects, over fn and its single-caller helpers (parameters bound to the caller's arguments), the normalised
 // field assignments "lhs = rhs" and the normalised arguments of calls to the named function.
 type normFacts struct {
-	assigns [][2]string
-	calls   map[string][]string // callee name -> normalised single argument
+	followAll bool // also read through multi-caller helpers of the same package (parameters bound per call)
+	assigns   [][2]string
+	calls     map[string][]string // callee name -> normalised single argument
+}
+
+func (c *RC) collectNormAll(fn *FuncInfo, callees ...string) *normFacts {
+	return c.collectNormOpt(fn, true, callees...)
 }
 
 func (c *RC) collectNorm(fn *FuncInfo, callees ...string) *normFacts {
-	nf := &normFacts{calls: map[string][]string{}}
+	return c.collectNormOpt(fn, false, callees...)
+}
+
+func (c *RC) collectNormOpt(fn *FuncInfo, all bool, callees ...string) *normFacts {
+	nf := &normFacts{calls: map[string][]string{}, followAll: all}
 	want := map[string]bool{}
 	for _, k := range callees {
 		want[k] = true
@@ -268,7 +292,8 @@ func (c *RC) collectNorm(fn *FuncInfo, callees ...string) *normFacts {
 			case *ast.AssignStmt:
 				if len(x.Lhs) == len(x.Rhs) {
 					for i, l := range x.Lhs {
-						if _, isSel := ast.Unparen(l).(*ast.SelectorExpr); isSel {
+						switch ast.Unparen(l).(type) {
+						case *ast.SelectorExpr, *ast.IndexExpr:
 							nf.assigns = append(nf.assigns, [2]string{env.norm(l), env.norm(x.Rhs[i])})
 						}
 					}
@@ -281,7 +306,7 @@ func (c *RC) collectNorm(fn *FuncInfo, callees ...string) *normFacts {
 				if want[fo.Name()] && len(x.Args) == 1 {
 					nf.calls[fo.Name()] = append(nf.calls[fo.Name()], env.norm(x.Args[0]))
 				}
-				if t := c.Prog.Funcs[fo.Origin()]; t != nil && t != f && t != fn && depth < 3 && c.A.inlinable(t) {
+				if t := c.Prog.Funcs[fo.Origin()]; t != nil && t != f && t != fn && depth < 3 && (c.A.inlinable(t) || nf.followAll && t.Pkg == fn.Pkg && stmtCount(t.Decl.Body) <= 40) {
 					b := map[*types.Var]string{}
 					for j, p := range t.Params {
 						if j < len(x.Args) {
